@@ -138,6 +138,11 @@ def handle : List String → Option String
   | ["wordsliceguard", n, start, stop] => do
     some (match Guards.wordSliceBounds (← n.toNat?) (← parseInt start) (← parseInt stop) with
       | none => "none" | some (lo, hi) => s!"ok {lo} {hi}")
+  | ["numexpguard", which, frac, e] => do
+    -- numexpguard <json|query> <fraction digits> <e>  →  ok | refused
+    let f ← frac.toNat?
+    let ex ← parseInt e
+    some (if (if which == "json" then SliceGuards.jsonNumberOk f ex else SliceGuards.queryNumberOk f ex) then "ok" else "refused")
   | ["beginguard", h, p] => do
     some (match SliceGuards.beginningEnd (← h.toNat?) (← p.toNat?) with | none => "none" | some e => s!"ok {e}")
   | ["readchars", h] => do
